@@ -11,6 +11,14 @@ cp /repo/httpClient/go.sum "$D/harness/go.sum"
 sed -e 's/^func main() {/func repoMain() {/' /repo/httpClient/main.go > "$D/harness/main_repo.go"
 grep -q '^func repoMain() {' "$D/harness/main_repo.go" || { echo "build_harness: could not rename main in main.go" >&2; exit 2; }
 cd "$D/harness"
+if [ "$RACE" = "server" ]; then
+  # the real service binary: /repo/httpClient/main.go against /repo/lib (its go.mod pins a module-cache copy of lib)
+  cp /repo/httpClient/go.mod "$D/server.mod"
+  cp /repo/httpClient/go.sum "$D/server.sum"
+  echo 'replace github.com/Azbesciak/RealDecisionMaker/lib => /repo/lib' >> "$D/server.mod"
+  (cd /repo/httpClient && go build -modfile="$D/server.mod" -o "$D/server" .)
+  exit 0
+fi
 if [ "$RACE" = "race" ]; then
   go build -tags verif -race -o "$D/harness/harness_race" . 
 else
